@@ -756,11 +756,23 @@ unsafe impl Allocator for PageAlignedAllocator {
             .map_err(|err| eprintln!("mprotect error = {:?}, in allocator", err))
             .ok();
 
+        #[cfg(feature = "verif_hooks")]
+        verif::notify(verif::Event::Alloc {
+            addr: slice.as_ptr() as usize,
+            size: layout.size(),
+        });
+
         unsafe { Ok(ptr::NonNull::new_unchecked(slice)) }
     }
 
     #[inline]
     unsafe fn deallocate(&self, ptr: ptr::NonNull<u8>, layout: Layout) {
+        #[cfg(feature = "verif_hooks")]
+        verif::notify(verif::Event::Release {
+            addr: ptr.as_ptr() as usize,
+            size: layout.size(),
+        });
+
         let pagesize = *PAGESIZE;
 
         let ptr = ptr.as_ptr().offset(-(pagesize as isize));
@@ -1443,6 +1455,45 @@ impl<A: Zeroize + Bytes, PM: traits::ProtectMode, LM: traits::LockMode> Zeroize
                 }
             }
         }
+    }
+}
+
+/// Verification seam: read-only observation of the page-aligned allocator.
+#[cfg(feature = "verif_hooks")]
+#[doc(hidden)]
+pub mod verif {
+    use std::cell::RefCell;
+
+    /// An allocator event. `addr`/`size` describe the block handed to (or
+    /// taken back from) the caller, not the surrounding guard pages.
+    #[derive(Clone, Copy, Debug, PartialEq, Eq)]
+    pub enum Event {
+        /// Reported after a block has been allocated.
+        Alloc { addr: usize, size: usize },
+        /// Reported immediately before a block is returned to the system
+        /// allocator; the block's bytes are still intact.
+        Release { addr: usize, size: usize },
+    }
+
+    type Observer = Box<dyn FnMut(Event)>;
+
+    thread_local! {
+        static OBSERVER: RefCell<Option<Observer>> = RefCell::new(None);
+    }
+
+    /// Installs (or, with `None`, removes) the observer of the calling thread.
+    pub fn set_alloc_observer(observer: Option<Observer>) {
+        OBSERVER.with(|o| *o.borrow_mut() = observer);
+    }
+
+    pub(super) fn notify(event: Event) {
+        let _ = OBSERVER.try_with(|o| {
+            if let Ok(mut o) = o.try_borrow_mut() {
+                if let Some(f) = o.as_mut() {
+                    f(event);
+                }
+            }
+        });
     }
 }
 
